@@ -44,7 +44,8 @@ func (m msgServer) CreateHTLC(
 		return nil, err
 	}
 
-	if m.k.blockedAddrs[msg.To] {
+	// look the recipient up in its canonical form: msg.To may be written in upper case
+	if m.k.blockedAddrs[to.String()] {
 		return nil, errorsmod.Wrapf(sdkerrors.ErrUnauthorized, "%s is a module account", msg.To)
 	}
 
